@@ -1181,7 +1181,6 @@ func c17Drops(r, v *c17J) bool {
 	return true
 }
 
-
 // c17RoundingSensitive: the value contains a number literal on which Go's
 // detour through float64 (FilterJson for int; float range) can differ from
 // exact decimal arithmetic, which is what the exact-decimal model
